@@ -471,10 +471,11 @@ the same comments in every section as the edited file. -/
 theorem C28_full_uniform_newlines (f f' : FileS) (op : AnyOp) (_h : applyAny f op = .ok f')
     (hs : fileFromBytes (render f'.toFile.events) = some f'.toFile)
     (hbom : noBomHead (render f'.toFile.events) = true) (hcr : (render f'.toFile.events).getLast? ≠ some 13)
-    (hv : ∃ e, f'.toFile.events.getLast? = some e ∧ isValueEnd e = true)
-    (hfin : f'.toFile.normal = true ∨ f'.toFile.aug = f'.toFile.events ++ [.newline (detectNewline f'.toFile)]) :
+    (hfin : f'.toFile.normal = true ∨
+      (f'.toFile.aug = f'.toFile.events ++ [.newline (detectNewline f'.toFile)] ∧
+        ∃ e, f'.toFile.events.getLast? = some e ∧ (isValueEnd e = true ∨ evIsWs e = true ∨ isHeaderEv e = true))) :
     ∃ g, load f'.write = some g ∧ g.view = f'.view ∧ g.comments = f'.comments :=
-  reparse_edited f' hs hbom hcr hv hfin
+  reparse_edited f' hs hbom hcr hfin
 
 -- non-vacuity: `[a]\n\tk = v` (no final newline), `set a.k = "x y "`: all hypotheses hold, the final newline is added
 example : ∃ f f', load [91, 97, 93, 10, 9, 107, 32, 61, 32, 118] = some f ∧
